@@ -3820,10 +3820,18 @@ class Device(utils.CompositeEventEmitter):
             )  # TODO: timeout
 
         def on_connection(connection):
-            pending_connection.set_result(connection)
+            if (
+                # Only the connection we are initiating completes this call, not
+                # an incoming connection (we may also be advertising) nor a
+                # BR/EDR connection that completes in the meantime.
+                connection.transport == PhysicalTransport.LE
+                and connection.role == hci.Role.CENTRAL
+            ):
+                pending_connection.set_result(connection)
 
         def on_connection_failure(error: core.ConnectionError):
-            pending_connection.set_exception(error)
+            if error.transport == PhysicalTransport.LE:
+                pending_connection.set_exception(error)
 
         # Create a future so that we can wait for the connection result
         pending_connection = asyncio.get_running_loop().create_future()
